@@ -60,7 +60,11 @@ ASSUMPTIONS = [
     "mu_0 from scipy.constants",
 ]
 
-# Rounding bounds.  Every trilinear weight is a product of three factors
+# Rounding bounds.  A rotation factor carries an absolute error of a few eps
+# (emg3d: scipy cosdg/sindg, reference: own reduction); on grids whose widths
+# differ by orders of magnitude between directions that error is multiplied by
+# the stencil of the *other* components, hence the ROT_EPS x (unrotated
+# scale) term in every magnetic bound.  Every trilinear weight is a product of three factors
 # (x - x_i)/(x_{i+1} - x_i) or one minus it, computed from identical floats by
 # emg3d and by the reference: absolute error <= ~5 eps per weight, 24 weights
 # (x rotation factor, itself good to 1.4e-15 with radians) => < 4e-14 max|E|.
@@ -69,15 +73,26 @@ TOL_V = 2e-13      # entries of the electric source vector (weights <= 1)
 TOL_VM = 1e-12     # entries of the magnetic vector, relative to max |curl|^T|P|^T
                    # (sums of up to four W/h terms; worst observed 1e-14)
 CUT = 1e-10        # emg3d's documented component cut-off (tiny-factor class)
+ROT_EPS = 16*np.finfo(float).eps   # absolute error granted to a rotation factor
 
 
 # --------------------------------------------------------------------------
 # Reference model
+def _sincosd(x):
+    """(sin, cos) of x degrees; exact at multiples of 90, accurate beside."""
+    import math
+    x = math.fmod(float(x), 360.0)              # exact
+    k = int(round(x/90.0))
+    t = math.radians(x - 90.0*k)                # |x - 90 k| <= 45, exact diff
+    s, c = math.sin(t), math.cos(t)
+    return [(s, c), (c, -s), (-s, -c), (-c, s)][k % 4]
+
+
 def ref_rotation(az, el):
     """Unit vector of (azimuth, elevation) in degrees; z upwards."""
-    a = np.radians(az)
-    e = np.radians(el)
-    return np.array([np.cos(a)*np.cos(e), np.sin(a)*np.cos(e), np.sin(e)])
+    sa, ca = _sincosd(az)
+    se, ce = _sincosd(el)
+    return np.array([ca*ce, sa*ce, se])
 
 
 def lin1d(pts, x):
@@ -451,8 +466,8 @@ def transposes(rec, seed, k, g, tier, npts, nnan):
         tiny = (oc == 'tiny')
         slack_e = 3*CUT*maxE if tiny else 0.0
         slack_e2 = 3*CUT*maxE2 if tiny else 0.0
-        slack_m = (CUT*float(np.dot(ref.am_unrot, np.abs(ev)))/abs(smu0)
-                   if tiny else 0.0)
+        Su = float(np.dot(ref.am_unrot, np.abs(ev)))/abs(smu0)
+        slack_m = ((CUT if tiny else 0.0) + ROT_EPS)*Su
         via_adjoint = (i % 2 == 0)
 
         # ---------------- electric
@@ -552,7 +567,8 @@ def transposes(rec, seed, k, g, tier, npts, nnan):
         amax = float(ref.am.max())
         dv = float(np.abs(um - ref.um).max())/amax
         rec.margin('m_vector_rel_err', dv)
-        if not (dv <= TOL_VM):
+        dabs = np.abs(um - ref.um)
+        if not np.all(dabs <= TOL_VM*amax + ROT_EPS*ref.am_unrot):
             key = ('C09:adjoint-source-of-magnetic-receiver' if via_adjoint
                    and type(srcm).__name__ != 'TxMagneticPoint' else
                    'C09:magnetic-point-vector-differs')
@@ -571,7 +587,7 @@ def transposes(rec, seed, k, g, tier, npts, nnan):
         if i == 0 and g < 2:
             rec.sample({'shape': list(shape), 'point': list(p),
                         'pos_class': pc, 'ori_class': oc, 'fmt': fmt,
-                        'frequency': freq, 'e_receiver': got,
+                        'frequency': freq, 'h_receiver': got,
                         'h_reference': want})
 
     # ---------------- vectorised call + NaN policy in the same call
@@ -625,8 +641,8 @@ def transposes(rec, seed, k, g, tier, npts, nnan):
                 if magnetic:
                     want = sum(np.sum(ref.fw[c]*F[c]) for c in range(3))/smu0
                     S = float(np.dot(ref.am, np.abs(ev)))/abs(smu0)
-                    sl = (CUT*float(np.dot(ref.am_unrot, np.abs(ev))) /
-                          abs(smu0) if tiny else 0.0)
+                    sl = ((CUT if tiny else 0.0) + ROT_EPS)*float(
+                        np.dot(ref.am_unrot, np.abs(ev)))/abs(smu0)
                     name = 'm_vectorised_vs_ref'
                 else:
                     want = np.dot(ref.u, ev)
@@ -740,6 +756,9 @@ def reciprocity(rec, seed, k, i, tier):
     rec.margin('recip_diff_over_bound', ratio)
     rec.margin('recip_rel_diff', diff/max(abs(rab), abs(rba), 1e-300))
     case.update(resp_ab=rab, resp_ba=rba, bound=bound)
+    # a pair decides something only if the response stands clear of the bound
+    if max(abs(rab), abs(rba)) >= 1e3*(3*bound + floor):
+        rec.event('recip_pairs_significant')
     if not (diff <= 3*bound + floor):
         rec.violation(f'C09:reciprocity-{kind}',
                       f'source a->receiver b = {rab}, source b->receiver a = '
@@ -806,7 +825,7 @@ def finalize(merged, tier):
         'adjoint_class_e': 1000, 'adjoint_class_m': 1000,
         'e_vectorised_vs_ref': 3000, 'm_vectorised_vs_ref': 3000,
         'nan_policy_must_be_nan': 5000, 'nan_policy_must_be_finite': 5000,
-        'recip_pairs': 60})
+        'recip_pairs': 60, 'recip_pairs_significant': 40})
     ev = merged['events']
     if ev.get('recip_not_converged', 0) > 0.5*max(1, ev.get('recip_solves', 0)
                                                   / 2):
